@@ -1116,6 +1116,7 @@ class SKEData(Packet):
 
     def __copy__(self):
         skd = self.__class__()
+        skd.header = copy.copy(self.header)
         skd.ct = self.ct[:]
         return skd
 
@@ -1603,6 +1604,7 @@ class IntegrityProtectedSKEDataV1(IntegrityProtectedSKEData):
 
     def __copy__(self):
         skd = self.__class__()
+        skd.header = copy.copy(self.header)
         skd.ct = self.ct[:]
         return skd
 
